@@ -327,6 +327,36 @@ class Types(object):
                 if ts - self.param_types.get(key, set()):
                     self.param_types.setdefault(key, set()).update(ts)
                     changed = True
+        # partial(f, a, b): a, b bind f's leading parameters
+        d0 = _dotted(call.func)
+        if d0 and d0.split(".")[-1] == "partial" and call.args:
+            target = call.args[0]
+            pf = None
+            skip = False
+            if isinstance(target, ast.Name):
+                rr = self._resolve_name(fi, target.id)
+                if rr[0] == "func":
+                    pf = rr[1]
+            elif isinstance(target, ast.Attribute):
+                for t in self.static_type(target.value, fi):
+                    c = self.cls_of(t)
+                    if c:
+                        o, mm = c.lookup(target.attr)
+                        if mm is not None:
+                            pf = mm
+                            skip = not mm.is_staticmethod
+            if pf is not None:
+                params = list(pf.params)
+                if skip and params:
+                    params = params[1:]
+                for pn, a in zip(params, call.args[1:]):
+                    if isinstance(a, ast.Starred):
+                        break
+                    ts = self.static_type(a, fi)
+                    key = (pf.key, pn)
+                    if ts - self.param_types.get(key, set()):
+                        self.param_types.setdefault(key, set()).update(ts)
+                        changed = True
         # Thread(target=f, args=(self_ref,)) with self_ref = weakref.ref(self, ...)
         d = _dotted(call.func)
         if d and d.split(".")[-1] == "Thread":
